@@ -62,6 +62,11 @@ DenText1(s, v) ==
       [] s = "(x<=6)*a" -> IF v.x <= 6 THEN v.a ELSE 0
       [] s = "(x==y)*a" -> IF v.x = v.y THEN v.a ELSE 0
       [] s = "(x!=y)*a" -> IF v.x # v.y THEN v.a ELSE 0
+      \* operators that do not commute with a sign or a scale: floor division and remainder (b > 0 in both valuations,
+      \* where TLA+'s \div and % agree with Python's // and %)
+      [] s = "-(a//b)" -> 0 - (v.a \div v.b)
+      [] s = "-(a%b)"  -> 0 - (v.a % v.b)
+      [] s = "a//b"    -> v.a \div v.b
       [] s = "x*2"     -> v.x * 2
       [] s = "2*x"     -> 2 * v.x
       [] s = "6/y"     -> 6 \div v.y
